@@ -204,8 +204,28 @@ func (k *Kernel) Burst(ps []*Parked, d Decision) {
 	}
 	sort.Strings(names)
 	k.Logf("burst %v %s", names, d.Op)
+	// Bookkeeping for the whole set under one lock acquisition, then the sends: the
+	// scheduler must not synchronise with a released task before releasing the next,
+	// or the race detector would see a happens-before chain between burst members.
+	k.mu.Lock()
 	for _, p := range ps {
-		k.Release(p, d)
+		for i, q := range k.parked {
+			if q == p {
+				k.parked = append(k.parked[:i], k.parked[i+1:]...)
+				break
+			}
+		}
+		k.running++
+		k.Steps++
+		k.schedH.Write([]byte(p.Name + "|" + p.Kind + "|" + d.Op + "\n"))
+	}
+	if len(ps) > 1 {
+		k.Switches++
+	}
+	k.lastTask = ""
+	k.mu.Unlock()
+	for _, p := range ps {
+		p.resume <- d
 	}
 	k.Quiesce()
 }
